@@ -43,7 +43,7 @@ def main():
     update = "--update" in sys.argv
     ids = [a for a in sys.argv[1:] if not a.startswith("--")] or sorted(os.listdir(os.path.join(VERIF, "seeded")))
     ids = [i for i in ids if os.path.exists(os.path.join(VERIF, "seeded", i, "patch.diff"))]
-    with ProcessPoolExecutor(max_workers=8) as ex:
+    with ProcessPoolExecutor(max_workers=15) as ex:
         res = list(ex.map(one, ids))
     own = other = missed = 0
     for sid, fired, err in res:
